@@ -46,7 +46,8 @@ theorem findSpanBin_eq_linear (p : ℕ) (U : ℕ → K) (n : ℕ) (u tol : K) (h
   Geomdl.findSpanBin_eq_linear p U n u tol hpn hm hlo hhi htol hend
 
 /-- Without that hypothesis the two searches differ (recorded finding F-17b): an interior knot within
-    the tolerance of the domain end. -/
+    the tolerance of the domain end.
+    (Closed witness check: a statement about this one concrete input, decided by evaluation.) -/
 theorem findSpanBin_refuted_F17b :
     findSpanBin 2 (fnOf ([0,0,0,1/2,999995/1000000,1,1,1] : List ℚ)) 5 (999992/1000000) (1/100000)
       ≠ some (findSpanLinear 2 (fnOf ([0,0,0,1/2,999995/1000000,1,1,1] : List ℚ)) 5 (999992/1000000)) := by
@@ -111,7 +112,8 @@ theorem knotNormalize_spec (V : List K) (hne : V ≠ []) (hrange : V.headD 0 < V
   obtain ⟨h1, h2, h3, h4⟩ := Geomdl.knotNormalize_spec V hne hrange
   exact ⟨h1, h2, h3, h4, fun i => fnOf_knotNormalize V i hne⟩
 
-/-- "all degrees" variant: entry `[j][i]` is entry `j` of the degree-`i` basis (and `None` above the diagonal). -/
+/-- "all degrees" variant: entry `[j][i]` is entry `j` of the degree-`i` basis (and `None` above the diagonal).
+    (Unfolding lemma: the model of the "all degrees" variant is defined from `basisFuns` entry by entry; the check against `helpers.basis_function_all` is the correspondence stream.) -/
 theorem basisFunAll_eq (p : ℕ) (U : ℕ → K) (k : ℕ) (u : K) (j i : ℕ) (hj : j ≤ p) (hi : i ≤ p) :
     ((basisFunAll p U k u).getD j []).getD i none = if j ≤ i then (basisFuns i U k u)[j]? else none := by
   unfold basisFunAll
